@@ -23,7 +23,9 @@ where
             | "else" | "enum" | "extern" | "false" | "fn" | "for" | "if" | "impl" | "in"
             | "let" | "loop" | "match" | "mod" | "move" | "mut" | "pub" | "ref" | "return"
             | "Self" | "self" | "static" | "struct" | "super" | "trait" | "true" | "type"
-            | "union" | "unsafe" | "use" | "where" | "while" => write!(f, "{}_v", self.0.as_ref()),
+            | "union" | "unsafe" | "use" | "where" | "while" | "abstract" | "become" | "box"
+            | "do" | "final" | "macro" | "override" | "priv" | "try" | "typeof" | "unsized"
+            | "virtual" | "yield" => write!(f, "{}_v", self.0.as_ref()),
             "TRUE" | "FALSE" => write!(f, "{}", self.0.as_ref().to_lowercase()),
             _ => write!(f, "{}", self.0.as_ref()),
         }
